@@ -53,6 +53,9 @@ CATALOGUE = {
     "FH": dict(model={"states": [{"name": "V"}, {"name": "R"}], "params": ["a", "b", "c"], "processes": [],
                       "odes": [{"state": "V", "eq": "c*(V - V**3/3 + R)"}, {"state": "R", "eq": "-(V - a + b*R)/c"}]},
                theta=[0.2, 0.2, 3.0], x0=[-1.0, 1.0], box=[[0.05, 1.0], [0.05, 1.0], [1.0, 5.0]], tmax=10.0, positive=False),
+    "VDP": dict(model={"states": [{"name": "x"}, {"name": "y"}], "params": ["mu"], "processes": [],
+                       "odes": [{"state": "x", "eq": "y"}, {"state": "y", "eq": "mu*(1 - x*x)*y - x"}]},
+                theta=[1.0], x0=[2.0, 0.0], box=[[0.4, 2.0]], tmax=12.0, positive=False),
     "LIN3": dict(model={"states": [{"name": "A"}, {"name": "B"}, {"name": "C"}], "params": ["k1", "k2"],
                         "processes": [{"rate": "k1*A", "trans": [_T("A", "B")]}, {"rate": "k2*B", "trans": [_T("B", "C")]}]},
                  theta=[0.7, 0.3], x0=[10.0, 2.0, 1.0], box=[[0.1, 2.0], [0.05, 1.5]], tmax=10.0, positive=True),
@@ -247,6 +250,10 @@ def run_solve(sess, op, step, out, stats, log):
     except core.RunTimeout:
         raise
     except Exception as e:
+        if op.get("long") and type(e).__name__ == "IntegrationError":
+            # an integrator giving up on a gap of tens of periods: integrator failure is outside the property
+            stats["integrator_failed_long_gap"] = stats.get("integrator_failed_long_gap", 0) + 1
+            return
         F(core.crash_failure("C02", e, step, "%s(method=%s, full_output=%s)" % (entry, method, op.get("full_output"))))
         return
     sol = np.asarray(sol, float)
@@ -267,6 +274,10 @@ def run_solve(sess, op, step, out, stats, log):
     else:
         got = sol
     tol = 1e-5 * (1.0 + np.abs(want).max())
+    if op.get("long"):
+        # oscillators over tens of periods: the phase error of a tolerance-1.5e-8 integrator grows with the horizon
+        tol *= max(1.0, (grid[-1] - sess.t0) / 4.0)
+        stats["long_gap_solves"] = stats.get("long_gap_solves", 0) + 1
     err = np.abs(got - want)
     if np.any(err > tol) or not np.all(np.isfinite(got)):
         k = int(np.argmax(err.max(axis=1)))
@@ -1073,6 +1084,31 @@ def gen_solve_ops(rng, t0, tmax, count):
             op["include_origin"] = rng.random() < 0.5
         ops.append(op)
     return ops
+
+
+def gen_long_gap_op(rng, t0):
+    """A sparse grid whose gaps span many periods of an oscillator (each interval needs hundreds to thousands of
+    internal integrator steps)."""
+    k = rng.randint(1, 4)
+    ts, t = [], t0
+    odeint = rng.random() < 0.7
+    for _ in range(k):
+        t += rng.uniform(15.0, 60.0) if odeint else rng.uniform(10.0, 30.0)
+        if t - t0 > 150.0:
+            break
+        ts.append(float(round(t, 3)))
+    if not ts:
+        ts = [float(round(t0 + 40.0, 3))]
+    if rng.random() < 0.3:
+        ts = [float(round(t0 + rng.uniform(0.2, 1.0), 3)), float(round(t0 + rng.uniform(1.2, 2.0), 3))] + ts
+    op = {"op": "solve", "entry": rng.choice(["integrate", "integrate", "solve_determ"]) if odeint else rng.choice(["integrate2", "funcjac"]),
+          "grid": ts, "gtype": rng.choice(["array", "list"]), "long": True}
+    if not odeint:
+        op["method"] = rng.choice(METHODS)
+        if op["entry"] == "funcjac":
+            op["full_output"] = rng.random() < 0.4
+            op["include_origin"] = rng.random() < 0.5
+    return op
 
 
 def gen_sens_case(S, tier, prop):
